@@ -196,10 +196,24 @@ def run_case(case):
     def snapshot_problem(out):
         """State-based form of the property: evaluated on the live directory right before an I/O event."""
         path = os.path.join(out, 'datapackage.json')
-        if not os.path.exists(path):
-            return None
         try:
-            desc = json.loads(open(path, 'rb').read().decode('utf-8'))
+            raw0 = open(path, 'rb').read()
+        except OSError:
+            return None
+        pr = _snapshot_problem(out, raw0)
+        if pr:
+            # a snapshot is not atomic: it counts only if the descriptor it was taken from is still the one in place (the
+            # harness itself moves whole output directories away between two runs)
+            try:
+                if open(path, 'rb').read() != raw0:
+                    return None
+            except OSError:
+                return None
+        return pr
+
+    def _snapshot_problem(out, raw0):
+        try:
+            desc = json.loads(raw0.decode('utf-8'))
         except Exception:
             return None
         for rd in desc.get('resources', []):
